@@ -804,6 +804,9 @@ func (c *VCtx) ghostMods(fr *Frame, mods map[string]Sort) {
 		return
 	}
 	for _, g := range fr.contract.Ghost {
+		if g.At == "entry" || g.At == "exit" {
+			continue // executed once, outside every loop of the function
+		}
 		lhs, _, _ := strings.Cut(g.Src, ":=")
 		lhs = strings.TrimSpace(lhs)
 		switch {
